@@ -1048,6 +1048,12 @@ func (fv *FV) ghostBuiltin(e *Env, x *ast.CallExpr, fn *types.Func) Value {
 	case "gh_max":
 		a, b := fv.expr(e, x.Args[0]).T, fv.expr(e, x.Args[1]).T
 		return Value{K: kScalar, T: ite(ge(a, b), a, b)}
+	case "gh_unavail":
+		v := fv.expr(e, x.Args[0])
+		return Value{K: kScalar, T: fv.errIs(v.T, fv.unavailSentinel())}
+	case "gh_errIs":
+		a, b := fv.expr(e, x.Args[0]), fv.expr(e, x.Args[1])
+		return Value{K: kScalar, T: fv.errIs(a.T, b.T)}
 	case "gh_upd":
 		m := fv.expr(e, x.Args[0])
 		k := fv.expr(e, x.Args[1])
@@ -1126,3 +1132,26 @@ func (fv *FV) bytesEq(e1 *Env, a Value, e2 *Env, b Value) Term {
 }
 
 var _ = token.NoPos
+
+// errIs is the errors.Is relation (uninterpreted, closed under wrapping by the
+// models of fmt.Errorf / errors.WithContext).
+func (fv *FV) errIs(a, b Term) Term {
+	fv.s.declFun("err_is", []string{sRef, sRef}, sBool)
+	fv.s.axiom("err_is_refl", "(forall ((a Ref)) (! (=> (not (= a null)) (err_is a a)) :pattern ((err_is a a))))")
+	fv.s.axiom("err_is_nil", "(forall ((t Ref)) (! (not (err_is null t)) :pattern ((err_is null t))))")
+	return app(sBool, "err_is", a, b)
+}
+
+// unavailSentinel stands for the unavailable-state error class of the ABCI layer.
+func (fv *FV) unavailSentinel() Term {
+	c := fv.s.declConst("err$unavail", sRef)
+	if !fv.globalSeen["err$unavail"] {
+		fv.globalSeen["err$unavail"] = true
+		fv.s.assume(not(eq(c, tNull)))
+		for _, o := range fv.sentinels {
+			fv.s.assume(not(eq(c, o)))
+		}
+		fv.sentinels = append(fv.sentinels, c)
+	}
+	return c
+}
